@@ -88,16 +88,16 @@ Print Assumptions C02_varying_capacity_refuted.
 
 (* ... and for EVERY well-formed list with a benign tail, non-trivial value types included
    (C02HistNt.v; erase with elements behind the erased ones only on trivially relocatable
-   lists, NtRefine.nt_hist_ok) *)
+   lists and on lists without a VaryingSize parameter, NtRefine.nt_hist_okx) *)
 Theorem C02_every_history_stays_inside_the_block_every_list : forall L cap budget fixed aid junk bid tbid h,
   wf_plist L = true -> tail_ok (SA L) true L = true ->
   0 <= cap -> 0 <= budget -> Forall (fun c => 0 <= c) fixed ->
   let v0 := fst (mkvec L cap budget fixed aid junk bid tbid) in
   let s0 := {| s_cap := cap; s_elems := [] |} in
-  shist_valid L (fixed_counts L fixed) s0 h -> bhist_valid L s0 budget h -> nt_hist_ok L s0 h ->
+  shist_valid L (fixed_counts L fixed) s0 h -> bhist_valid L s0 budget h -> nt_hist_okx L s0 h ->
   let v := vrun L junk v0 h in
   let l := s_elems (srun s0 h) in
   exists offs, RepO L v l offs /\
     Forall2 (fun a t => 0 <= a /\ elem_end L a t <= SA L * v_units v) offs l.
-Proof. exact every_element_inside_block_every_history_nt. Qed.
+Proof. exact every_element_inside_block_every_history_ntx. Qed.
 Print Assumptions C02_every_history_stays_inside_the_block_every_list.
